@@ -150,6 +150,8 @@ func checkMain(args []string) int {
 	var samples []any
 	var violations, knownHits []*Obligation
 	assumptions := map[string]bool{}
+	covTotal, covDead := map[string]int{}, map[string]int{}
+	var deadNotes []string
 	var outOfSubset []string
 	for _, u := range units {
 		for a := range u.fc.assumes {
@@ -182,10 +184,16 @@ func checkMain(args []string) int {
 			solverTime += r.TimeS
 			rep := ObReport{Name: ob.Name, Kind: ob.Kind, Pos: ob.Pos, Clause: ob.Text, Verdict: r.Verdict, Solver: r.Solver, TimeS: r.TimeS, Attempts: r.Attempts}
 			if ob.Cover {
-				// vacuity probes are not proof obligations; a refuted one breaks the check
+				// vacuity probes are not proof obligations. A refuted entry probe (contradictory precondition) or a function
+				// none of whose returns is reachable breaks the check; a single unreachable return is just dead code.
+				covTotal[ob.Func]++
 				if r.Verdict != want {
-					fmt.Fprintf(os.Stderr, "machinery error: vacuous contract: %s is unsatisfiable\n", ob.Name)
-					eng.staleErrs = append(eng.staleErrs, "vacuous: "+ob.Name)
+					covDead[ob.Func]++
+					deadNotes = append(deadNotes, ob.Name)
+					if strings.HasSuffix(ob.Name, "#cover:entry") || strings.HasSuffix(ob.Name, "#cover") {
+						fmt.Fprintf(os.Stderr, "machinery error: vacuous contract: %s is unsatisfiable\n", ob.Name)
+						eng.staleErrs = append(eng.staleErrs, "vacuous: "+ob.Name)
+					}
 				}
 				continue
 			}
@@ -203,6 +211,16 @@ func checkMain(args []string) int {
 			}
 			reports = append(reports, rep)
 		}
+	}
+	for f, n := range covTotal {
+		// entry probe + return probes: all return probes refuted means no execution satisfies the contract's assumptions
+		if n > 1 && covDead[f] >= n-1 && covDead[f] > 0 {
+			fmt.Fprintf(os.Stderr, "machinery error: vacuous contract: no return of %s is reachable\n", f)
+			eng.staleErrs = append(eng.staleErrs, "vacuous: "+f)
+		}
+	}
+	for _, d := range deadNotes {
+		assumptions["note: unreachable return (dead code or contradictory path assumptions): "+d] = true
 	}
 	if len(eng.staleErrs) > 0 {
 		fmt.Fprintln(os.Stderr, "machinery error: contracts do not match the code (see above); no verdict")
